@@ -23,6 +23,9 @@ func main() {
 		os.Exit(2)
 	}
 	mode := os.Args[1]
+	if fn, ok := extraModes[mode]; ok {
+		os.Exit(fn(os.Args[2:]))
+	}
 	fs := flag.NewFlagSet(mode, flag.ExitOnError)
 	seed := fs.Uint64("seed", 1, "PRNG seed")
 	programs := fs.Int("programs", 10, "number of programs")
